@@ -41,7 +41,42 @@ vvars == <<comps, svals, phase, order, out, mw, fault, verdict>>
 (* Option sites.  A key site is applicable where the key is present in the rendered component. *)
 KeySites == {"command", "references", "workflowAttributes", "arguments", "executable", "replicate", "aggregate", "backend",
              "alien"}      \* "alien": a key that resembles no known key; the others are misspellings of known keys
-TypeSites == {"replicate", "aggregate", "aggregateInt", "references", "arguments", "numberProcesses", "stage", "shutdownOn"}
+(* Typed option sites, by declared type (FlowIR.type_flowir_component), and the classes of values a package may give.   *)
+IntSites == {"numberProcesses", "numberThreads", "ranksPerNode", "threadsPerCore", "gpus", "maxRestarts", "repeatRetries",
+             "gracePeriod", "replicate"}
+FloatSites == {"walltime", "cpuUnitsPerCore", "statusRequestInterval"}
+StrSites == {"arguments", "executable", "queue"}
+BoolSites == {"aggregate", "isMigratable", "resolvePath"}
+ListSites == {"references", "shutdownOn"}
+EnumSites == {"backend"}          \* one of a fixed list of names
+AllTypeSites == IntSites \cup FloatSites \cup StrSites \cup BoolSites \cup ListSites \cup EnumSites \cup {"stage"}
+(* ffrac 2.5, fwhole 2.0, int 2, bool true, numstr "2", boolstr "true"/"false", word "two", list [2], dict {a: 1}, none null *)
+AllClasses == {"ffrac", "fwhole", "int", "bool", "numstr", "boolstr", "word", "list", "dict", "none"}
+Decl(site) == CASE site \in IntSites -> "int" [] site \in FloatSites -> "float" [] site \in StrSites -> "str"
+                [] site \in BoolSites -> "bool" [] site \in ListSites -> "list" [] site \in EnumSites -> "enum" [] OTHER -> "stage"
+(* the classes that ARE the declared type (not a fault) *)
+Native(decl) == CASE decl = "int" -> {"int"} [] decl = "float" -> {"ffrac", "fwhole"} [] decl = "str" -> {"numstr", "boolstr", "word"}
+                  [] decl = "bool" -> {"bool"} [] decl = "list" -> {"list"} [] decl = "stage" -> {"int"} [] OTHER -> {}
+
+(* What the loader owes for a value of class cls at a site:                                                               *)
+(*   "reject": a wrongly typed option (the property): words, containers, a fraction or a boolean for a number, a number    *)
+(*             for a boolean, anything but a list for a list, anything but a known name for an enumeration;                *)
+(*   "accept": the documented lossless conversions: null = the option is not set, "2" for a number (values arrive as text  *)
+(*             through variables), 2 for a float, 2 for a string, "true"/"false" for a boolean;                            *)
+(*   "either": not decided by the property nor documented: 2.0 for an integer, a float or a boolean for a string (YAML     *)
+(*             scalars whose text is a faithful string), null for the mandatory executable.                                *)
+Rule(site, cls) ==
+    LET d == Decl(site) IN
+    CASE cls = "none" -> IF site = "executable" THEN "either" ELSE "accept"
+      [] d = "int"   -> IF cls = "numstr" THEN "accept" ELSE IF cls = "fwhole" THEN "either" ELSE "reject"
+      [] d = "float" -> IF cls \in {"int", "numstr"} THEN "accept" ELSE "reject"
+      [] d = "str"   -> IF cls = "int" THEN "accept" ELSE IF cls \in {"ffrac", "fwhole", "bool"} THEN "either" ELSE "reject"
+      [] d = "bool"  -> IF cls = "boolstr" THEN "accept" ELSE "reject"
+      [] OTHER -> "reject"
+
+CONSTANTS TypeSitesC,     \* the typed sites of this run (subset of AllTypeSites)
+          TypeClassesC    \* the value classes of this run (subset of AllClasses)
+
 GlobalVars == {"rg", "rs", "rc", "msg", "unused"}      \* what the package defines in the global scope
 
 KeyApplies(c, site) == CASE site = "references" -> Len(c.refs) > 0
@@ -49,8 +84,17 @@ KeyApplies(c, site) == CASE site = "references" -> Len(c.refs) > 0
                          [] site = "replicate" -> c.rep # "none"
                          [] site = "aggregate" -> c.agg
                          [] OTHER -> TRUE
-TypeApplies(c, site) == CASE site = "references" -> Len(c.refs) > 0
-                          [] OTHER -> TRUE
+(* A type fault applies where the value is not of the declared type and where a value the loader owes to ACCEPT leaves  *)
+(* the rest of the workflow as it is (an accepted value must not change replica counts, aggregation or the arguments'    *)
+(* references, which would make the mutant invalid for another reason).                                                   *)
+TypeApplies(c, site, cls) ==
+    /\ cls \notin Native(Decl(site))
+    /\ CASE site = "stage"      -> cls = "word"
+         [] site = "replicate"  -> c.rep = "n2" /\ cls # "none"                 \* "2" and 2.0 keep the two copies
+         [] site = "aggregate"  -> cls = "none" => ~ c.agg                       \* "true"/"false" is rendered as the current flag
+         [] site = "references" -> cls = "none" => Len(c.refs) = 0
+         [] site = "arguments"  -> (Rule(site, cls) # "reject") => (Len(c.refs) = 0 /\ ~ c.msg)
+         [] OTHER -> TRUE
 
 (* the built workflow with producers named instead of indexed; the last component uses the variable `msg` in its arguments *)
 Named(ws) == [c \in 1..Len(ws) |->
@@ -58,7 +102,7 @@ Named(ws) == [c \in 1..Len(ws) |->
                  refs |-> [k \in 1..Len(ws[c].refs) |->
                              [ps |-> ws[ws[c].refs[k].p].stage, pn |-> ws[ws[c].refs[k].p].name, sp |-> ws[c].refs[k].sp,
                               path |-> ws[c].refs[k].path, m |-> ws[c].refs[k].m, st |-> ws[c].refs[k].st]],
-                 msg |-> c = Len(ws), xkey |-> "", xtype |-> ""]]
+                 msg |-> c = Len(ws), xkey |-> "", xtype |-> "", xcls |-> ""]]
 
 RemoveAt(s, i) == [k \in 1..(Len(s) - 1) |-> IF k < i THEN s[k] ELSE s[k + 1]]
 OtherStage(s) == 1 - s
@@ -84,7 +128,8 @@ Applies(ws, f) ==
       \* component j takes the identifier of component i
       [] f.kind = "dup"     -> f.i \in 1..n /\ f.j \in 1..n /\ f.i # f.j /\ f.site = ""
       [] f.kind = "key"     -> f.i \in 1..n /\ f.j = 0 /\ f.site \in KeySites /\ KeyApplies(Named(ws)[f.i], f.site)
-      [] f.kind = "type"    -> f.i \in 1..n /\ f.j = 0 /\ f.site \in TypeSites /\ TypeApplies(Named(ws)[f.i], f.site)
+      [] f.kind = "type"    -> f.i \in 1..n /\ f.j = 0 /\ f.site \in AllTypeSites /\ f.cls \in AllClasses
+                               /\ TypeApplies(Named(ws)[f.i], f.site, f.cls)
       [] f.kind = "var"     -> f.i = 0 /\ f.j = 0 /\ f.site \in GlobalVars
       [] OTHER -> FALSE
 
@@ -98,7 +143,7 @@ Mutant(ws, f) ==
                                 gvars |-> GlobalVars]
       [] f.kind = "dup"     -> [comps |-> [nm EXCEPT ![f.j].name = nm[f.i].name, ![f.j].stage = nm[f.i].stage], gvars |-> GlobalVars]
       [] f.kind = "key"     -> [comps |-> [nm EXCEPT ![f.i].xkey = f.site], gvars |-> GlobalVars]
-      [] f.kind = "type"    -> [comps |-> [nm EXCEPT ![f.i].xtype = f.site], gvars |-> GlobalVars]
+      [] f.kind = "type"    -> [comps |-> [nm EXCEPT ![f.i].xtype = f.site, ![f.i].xcls = f.cls], gvars |-> GlobalVars]
       [] f.kind = "var"     -> [comps |-> nm, gvars |-> GlobalVars \ {f.site}]
       [] OTHER              -> [comps |-> nm, gvars |-> GlobalVars]
 
@@ -118,7 +163,9 @@ PathV(m, i, j, fuel) == fuel > 0 /\ (EdgeV(m, i, j) \/ \E x \in 1..Len(m.comps) 
 AcyclicV(m) == \A i \in 1..Len(m.comps) : ~ PathV(m, i, i, Len(m.comps))
 VarsDefinedV(m) == \A c \in 1..Len(m.comps) : \A v \in UsedVars(m.comps[c]) : Defined(m, m.comps[c], v)
 KeysKnownV(m) == \A c \in 1..Len(m.comps) : m.comps[c].xkey = ""
-TypesOKV(m) == \A c \in 1..Len(m.comps) : m.comps[c].xtype = ""
+TypesOKV(m) == \A c \in 1..Len(m.comps) : m.comps[c].xtype = "" \/ Rule(m.comps[c].xtype, m.comps[c].xcls) # "reject"
+(* the outcome is not decided by the property for this mutant (when nothing else is broken) *)
+Unspecified(m) == \E c \in 1..Len(m.comps) : m.comps[c].xtype # "" /\ Rule(m.comps[c].xtype, m.comps[c].xcls) = "either"
 
 Valid(m) == /\ Len(m.comps) >= 1
             /\ UniqueIdsV(m) /\ ResolvesV(m) /\ AcyclicV(m) /\ VarsDefinedV(m) /\ KeysKnownV(m) /\ TypesOKV(m)
@@ -140,7 +187,7 @@ Kahn(m, rest) == LET free == {j \in rest : ~ \E i \in rest : EdgeV(m, i, j)}
 Verdict(m) ==
     IF Len(m.comps) = 0 THEN "reject:empty"
     ELSE IF \E c \in 1..Len(m.comps) : m.comps[c].xkey # "" THEN "reject:key"
-    ELSE IF \E c \in 1..Len(m.comps) : m.comps[c].xtype # "" THEN "reject:type"
+    ELSE IF \E c \in 1..Len(m.comps) : m.comps[c].xtype # "" /\ Rule(m.comps[c].xtype, m.comps[c].xcls) = "reject" THEN "reject:type"
     ELSE IF FirstDuplicate(m.comps, 1, {}) THEN "reject:duplicate"
     ELSE IF \E c \in 1..Len(m.comps) : \E v \in UsedVars(m.comps[c]) : ~ Defined(m, m.comps[c], v) THEN "reject:variable"
     ELSE IF \E c \in 1..Len(m.comps) : \E k \in 1..Len(m.comps[c].refs) :
@@ -149,7 +196,7 @@ Verdict(m) ==
     ELSE "accept"
 
 ---------------------------------------------------------------------------
-NoFault == [kind |-> "none", i |-> 0, j |-> 0, site |-> ""]
+NoFault == [kind |-> "none", i |-> 0, j |-> 0, site |-> "", cls |-> ""]
 InitV == /\ Init
          /\ mw = [comps |-> <<>>, gvars |-> {}]
          /\ fault = NoFault
@@ -172,13 +219,13 @@ AddRefV(p, sp, pa, m, st) == AddRef(p, sp, pa, m, st) /\ UNCHANGED <<mw, fault, 
 NextV == \/ \E n \in Names, s \in Stages, r \in RepChoices, g \in AggChoices : AddComponentV(n, s, r, g)
          \/ \E p \in 1..MaxComps, sp \in Spellings, pa \in Paths, m \in Methods, st \in ArgStyles : AddRefV(p, sp, pa, m, st)
          \/ \E k \in FaultKinds \cap PlainKinds, i \in 0..MaxComps, j \in 0..MaxComps :
-              Mutate([kind |-> k, i |-> i, j |-> j, site |-> ""])
+              Mutate([kind |-> k, i |-> i, j |-> j, site |-> "", cls |-> ""])
          \/ \E k \in FaultKinds \cap {"key"}, i \in 1..MaxComps, site \in KeySites :
-              Mutate([kind |-> k, i |-> i, j |-> 0, site |-> site])
-         \/ \E k \in FaultKinds \cap {"type"}, i \in 1..MaxComps, site \in TypeSites :
-              Mutate([kind |-> k, i |-> i, j |-> 0, site |-> site])
+              Mutate([kind |-> k, i |-> i, j |-> 0, site |-> site, cls |-> ""])
+         \/ \E k \in FaultKinds \cap {"type"}, i \in 1..MaxComps, site \in TypeSitesC, cls \in TypeClassesC :
+              Mutate([kind |-> k, i |-> i, j |-> 0, site |-> site, cls |-> cls])
          \/ \E k \in FaultKinds \cap {"var"}, site \in GlobalVars :
-              Mutate([kind |-> k, i |-> 0, j |-> 0, site |-> site])
+              Mutate([kind |-> k, i |-> 0, j |-> 0, site |-> site, cls |-> ""])
 
 SpecV == InitV /\ [][NextV]_vvars
 
@@ -195,7 +242,9 @@ FaultEffects == Mutated =>
     /\ fault.kind = "cycle" => ~ AcyclicV(mw)
     /\ fault.kind = "dup" => ~ UniqueIdsV(mw)
     /\ fault.kind = "key" => ~ KeysKnownV(mw)
-    /\ fault.kind = "type" => ~ TypesOKV(mw)
+    \* a value of another class is a fault exactly when the loader owes a refusal; a documented conversion keeps the workflow valid
+    /\ fault.kind = "type" => /\ (~ TypesOKV(mw)) <=> (Rule(fault.site, fault.cls) = "reject")
+                               /\ (Rule(fault.site, fault.cls) = "accept") => Valid(mw)
     \* dropping a component is harmless exactly when nobody consumes from it
     /\ fault.kind = "drop" => (Valid(mw) <=> ~ \E c \in 1..Len(comps) : fault.i \in Producers(comps, c))
     \* removing a variable is harmless exactly when every use of it is still covered by a narrower scope
@@ -210,9 +259,9 @@ NeverAcceptsMutant == ~ (Mutated /\ fault.kind # "none" /\ verdict = "accept")
 NeverRejects == ~ (Mutated /\ verdict # "accept")
 
 CRefV(r) == <<r.ps, r.pn, r.sp, r.path, r.m, r.st>>
-CCompV(c) == [n |-> c.name, s |-> c.stage, rep |-> c.rep, g |-> c.agg, msg |-> c.msg, xkey |-> c.xkey, xtype |-> c.xtype,
+CCompV(c) == [n |-> c.name, s |-> c.stage, rep |-> c.rep, g |-> c.agg, msg |-> c.msg, xkey |-> c.xkey, xtype |-> c.xtype, xcls |-> c.xcls,
               r |-> [k \in 1..Len(c.refs) |-> CRefV(c.refs[k])]]
 EmitMutant == (EmitV /\ Mutated) =>
                 PrintT(ToJson([comps |-> [c \in 1..Len(mw.comps) |-> CCompV(mw.comps[c])], gvars |-> mw.gvars,
-                               fault |-> fault, valid |-> Valid(mw), broken |-> Broken(mw), verdict |-> verdict]))
+                               fault |-> fault, valid |-> Valid(mw), unspec |-> Unspecified(mw), broken |-> Broken(mw), verdict |-> verdict]))
 =============================================================================
